@@ -16,7 +16,7 @@ from ..values import (Const, Sym, CRef, FRef, Bound, Obj, Tup, App, New,
                       Raise, Coll, walk)
 from ..interp import Interp, Hooks, is_private_helper, prologue_helpers
 from ..galg import GraphHooks
-from ..report import Finding, RuleResult, floor, Attempts
+from ..report import Finding, RuleResult, floor, Attempts, adopt
 from . import c01, c07
 
 PROP = 'C19'
@@ -316,7 +316,19 @@ def run(prog, tier, seed):
         for f in r4.findings:
             f.prop = PROP
             f.rule = 'R-RES-1b'
-        results.append(r4)
+        results = results + T.results(r4)
+    # the CTL handlers compute the documented sets (hence sets of states of
+    # K) and the memo handed to the labeller is created in the call (a memo
+    # that outlives the call hands out sets the caller of an earlier call
+    # owns); what is computed on a clone consists of states of K only if the
+    # clone keeps the state objects
+    from . import c13, c14
+
+    adj = T(c13.adjacency_field, prog)
+    results = results + adopt(
+        c01.own_rules(prog, tier, T) +
+        T.results(T(c14.rule_k4, prog, adj) if adj else None),
+        PROP, 'ownership / provenance of the returned states')
     expl = ('Alias summaries (least fixpoint over the call graph) show that '
             'the object returned by each modelcheck aliases no argument and '
             'no module/class state; every CTL handler and LTL.modelcheck '
